@@ -62,3 +62,53 @@ func CoreFragment() *Fragment {
 		Weight: StructuralWeight,
 	}
 }
+
+// ProjFragment is X_proj (C02): every projection kind, chained and nested, with
+// right-hand sides that map null to non-null, all projection terminators and
+// truthiness/comparison filter conditions.
+func ProjFragment() *Fragment {
+	return &Fragment{
+		Idents: Tks("a", "b"),
+		Funcs:  Tks("type", "not_null", "to_array"),
+		Leaves: Tks("@", "`1`", "`0`"),
+		Nums:   Tks("0", "-1"),
+		Slices: [][]model.Tok{Tks(":"), Tks("1", ":"), Tks(":", ":", "-1"), Tks(":", "1")},
+		Cmps:   Tks("==", ">"),
+		Star:   true, WildIdx: true, Flatten: true, Filter: true, Dot: true, Pipe: true, Or: true, And: true,
+		Not: true, Paren: true, MaxList: 2, MaxHash: 1, MaxArgs: 2, MinArgs: 1,
+		Weight: StructuralWeight,
+	}
+}
+
+// HasProjection reports whether the AST contains a projection node.
+func HasProjection(n *model.Node) bool {
+	switch n.Type {
+	case model.NProjection, model.NValueProjection, model.NFilterProjection, model.NFlatten, model.NSlice:
+		return true
+	}
+	for _, c := range n.Children {
+		if HasProjection(c) {
+			return true
+		}
+	}
+	return false
+}
+
+// Lx lexes expression text into tokens (panics on malformed text).
+func Lx(text string) []model.Tok {
+	toks, err := model.Lex(text)
+	if err != nil {
+		panic("bad expression text " + text + ": " + err.Error())
+	}
+	return toks
+}
+
+// LogicFragment (C07): all nestings of ||, &&, !, the six comparators and
+// parentheses over three field names.
+func LogicFragment() *Fragment {
+	return &Fragment{
+		Idents: Tks("a", "b", "c"),
+		Cmps:   Tks("==", "!=", "<", "<=", ">", ">="),
+		Or:     true, And: true, Not: true, Paren: true,
+	}
+}
